@@ -72,8 +72,25 @@ pub fn large_inputs(tier: &str) -> Vec<Input> {
         v.push(Input { name: format!("two-components22/{w}"), g: from_edges(n, false, &two, weighted), weighted });
         v.push(Input { name: format!("grid4x6/{w}"), g: from_edges(24, false, &grid, weighted), weighted });
     }
+    // inputs on which calls FAIL: a negative edge (ContradictoryPaths from every source that reaches it) and, in the
+    // calls below, an unknown source name next to it - which error comes back must not depend on the schedule either
+    {
+        let n = 24;
+        let mut g: Graph<i32, ()> = Graph::new(GraphSpecs::directed());
+        for i in (0..n).rev() {
+            g.add_node(Node::from_name(i));
+        }
+        // ring i -> i+1 (1) with chords i -> i+2 (2); the edge 12 -> 11 (-5) improves node 11 after it has been
+        // settled, so every search that reaches 12 after 11 ends in ContradictoryPaths
+        for i in 0..n {
+            g.add_edge(Arc::new(Edge { u: i, v: (i + 1) % n, weight: 1.0, attributes: None })).expect("c07 input");
+            g.add_edge(Arc::new(Edge { u: i, v: (i + 2) % n, weight: 2.0, attributes: None })).expect("c07 input");
+        }
+        g.add_edge(Arc::new(Edge { u: 12, v: 11, weight: -5.0, attributes: None })).expect("c07 input");
+        v.push(Input { name: "neg-ring24/directed".into(), g, weighted: true });
+    }
     // sizes around further round numbers (a second size-gated path would switch on somewhere here)
-    let bigs: Vec<i32> = if tier == "quick" { vec![130, 601, 1030] } else { vec![65, 130, 260, 520, 601, 1030, 2051] };
+    let bigs: Vec<i32> = if tier == "quick" { vec![130, 601] } else { vec![65, 130, 260, 520, 601, 1030, 2051] };
     for &n in &bigs {
         for directed in [false, true] {
             let mut es: Vec<(i32, i32)> = (0..n).map(|i| (i, (i + 1) % n)).collect();
@@ -136,6 +153,24 @@ pub fn calls(inp: &Input) -> Vec<(String, Box<dyn Fn() -> u64 + Send + Sync + '_
     let mut v: Vec<(String, Box<dyn Fn() -> u64 + Send + Sync + '_>)> = vec![];
     let n = g.number_of_nodes() as i32;
     let modes: Vec<bool> = if inp.weighted { vec![true, false] } else { vec![false] };
+    if inp.name.starts_with("neg-") {
+        let res = |r: Result<std::collections::HashMap<i32, std::collections::HashMap<i32, graphrs::algorithms::shortest_path::ShortestPathInfo<i32>>>, graphrs::Error>| -> u64 {
+            match r {
+                Ok(m) => digest_pairs(&m),
+                Err(e) => {
+                    let mut h: u64 = 0xcbf29ce484222325;
+                    fnv(&mut h, &format!("Err:{:?}:{}", e.kind, e.message));
+                    h
+                }
+            }
+        };
+        v.push(("all_pairs(w=true,paths) -> error".into(), Box::new(move || res(dijkstra::all_pairs(g, true, None, None, false, true)))));
+        v.push(("all_pairs(w=true,fast) -> error".into(), Box::new(move || res(dijkstra::all_pairs(g, true, None, None, false, false)))));
+        v.push(("multi_source(w=true,[0, unknown, 5],first_only) -> error".into(), Box::new(move || res(dijkstra::multi_source(g, true, vec![0, 1_000_000, 5], None, None, true, false)))));
+        v.push(("multi_source(w=true,[unknown, 0],paths) -> error".into(), Box::new(move || res(dijkstra::multi_source(g, true, vec![1_000_000, 0], None, None, false, true)))));
+        v.push(("multi_source(w=false,all) on the same graph".into(), Box::new(move || res(dijkstra::multi_source(g, false, (0..n).collect(), None, None, false, true)))));
+        return v;
+    }
     if n > 100 {
         // big inputs: the cheaper variants only
         let weighted = inp.weighted;
